@@ -125,7 +125,7 @@ def encodeCore (f : Field) (v : Val) : Except Err Bits :=
       | _ => .error .outsideModel
     | .bytes =>
       match v with
-      | .bytes bs => .ok (if bs.isEmpty then zeros f.width else ofBytes bs)
+      | .bytes bs => .ok (if bs.isEmpty then (if f.varlen then [] else zeros f.width) else ofBytes bs)
       | _ => .error .outsideModel
 
 theorem encodeField_of (env : Env) (f : Field) (v v' : Val) (b : Bits)
